@@ -22,7 +22,7 @@ TRUSTED = ["correspondence harness props/C08.py + pv/ (fake /proc tree, patched 
 ASSUMPTIONS = ["CPython semantics of bytes.split/strip/startswith/int and of warnings are modelled, not verified",
                "numbers with more than 4300 digits (int() limit) or values >= 2^1024 (float overflow in usage_percent) are outside the model",
                "the fallback estimate's float arithmetic is exact only below 2^53*1024 bytes; generated watermark-path cases stay below 2^50 kB",
-               "pswpin/pswpout are converted with the literal 4096: equal to bytes only on 4K-page kernels (observation, see notes/design/C08.md)"]
+               "the page size is the module constant psutil._pslinux.PAGESIZE (patched per case to 4096/16384/65536)"]
 EXHAUSTIVE = {"quick": "all 512 subsets of 9 optional meminfo field groups; all 96 combinations of MemAvailable mode x {Active(file),Inactive(file),SReclaimable,zoneinfo} subsets",
               "thorough": "the same 512 + 96 enumerations, each under 6 magnitude classes"}
 SHARD = 120
@@ -268,7 +268,7 @@ def gen_cases(rng, tier):
         else:
             mi = rng.choice(RAW_MEM)
             vi = rng.choice(RAW_VMSTAT)
-            cases.append({"kind": "swapraw", "cls": "swap-raw", "meminfo": mi.hex(), "sysinfo": [rng.choice([0, 9, 77]), rng.choice([0, 5]), rng.choice([1, 4096])],
+            cases.append({"kind": "swapraw", "cls": "swap-raw", "ps": rng.choice([4096, 4096, 16384, 65536]), "meminfo": mi.hex(), "sysinfo": [rng.choice([0, 9, 77]), rng.choice([0, 5]), rng.choice([1, 4096])],
                           "vmstat": None if vi is None else vi.hex()})
     return cases
 
@@ -309,7 +309,7 @@ def coq_term(case):
     if k == "vmraw":
         return "run_vm_raw %s %s %s" % (G.z(case["ps"]), G.by(bytes.fromhex(case["meminfo"])), _optb(case["zoneinfo"]))
     if k == "swapraw":
-        return "run_swap_raw %s %s %s" % (G.by(bytes.fromhex(case["meminfo"])), _si(case["sysinfo"]), _optb(case["vmstat"]))
+        return "run_swap_raw %s %s %s %s" % (G.z(case.get("ps", 4096)), G.by(bytes.fromhex(case["meminfo"])), _si(case["sysinfo"]), _optb(case["vmstat"]))
     raise ValueError(k)
 
 
@@ -391,13 +391,6 @@ def judge(case, coq, impl):
                 return Verdict("violation", "warning is not a RuntimeWarning / not in the documented wording: %r" % (side.get("warns"),))
         elif not vm and _is_val(got) and _is_val(spec):
             g, s = list(got["a"][0]), list(spec["a"][0])
-            if case.get("ps", 4096) != 4096 and g[4:6] != s[4:6]:
-                # observation (not a violation, see notes): sin/sout use the literal 4096; on a kernel with
-                # another page size the code reports pages*4096.  Accepted: the true bytes (pages * page size,
-                # the spec's figures) or exactly the modelled pages*4096 -- nothing else.
-                m = model["a"][0] if _is_val(model) else None
-                if m is not None:
-                    s[4], s[5] = m[4], m[5]
             if g != s:
                 bad = [(SWAP_ORDER + ["warned"])[i] for i in range(7) if g[i] != s[i]]
                 return Verdict("violation", "swap fields differ from the documented formulas: %s" % bad)
@@ -406,10 +399,6 @@ def judge(case, coq, impl):
         elif got != spec:
             return Verdict("violation", "call failed although only optional fields are missing: %r" % (main,))
     gotm = _norm(main, side, model, idx, ut)
-    if (not vm and case.get("ps", 4096) != 4096 and _is_val(gotm) and _is_val(model) and _is_val(spec)
-            and gotm["a"][0][4:6] == spec["a"][0][4:6]):
-        # the code converts pages with the real page size (repaired behaviour): also fine
-        gotm = Val(gotm["a"][0][:4] + model["a"][0][4:6] + gotm["a"][0][6:])
     if gotm != model:
         return Verdict("corr", "impl != model")
     if _is_val(main) and vm and side.get("phymem") != main["a"][0][0]:
@@ -522,10 +511,10 @@ MANIFEST = {
             "fields = kernel kB x 1024 with the documented substitutions, used with its negative clamp, available = MemAvailable or (absent/zero) the "
             "documented watermark estimate / free+cached, forced to 0 below 0 and to free above total, percent = nearest tenth of (total-available)/total*100 "
             "(rounding function proved nearest-ties-to-even), warning names = exactly the metrics set to 0 (slab excepted); never an exception. "
-            "0<=available<=total and 0<=percent<=100 whenever free<=total (and a witness that this hypothesis is needed). swap_memory(): total/free from meminfo "
-            "or sysinfo(2), used, percent, sin/sout = pages x 4096 (= bytes when the page size is 4096; a witness shows the dependence), zeros + warning when "
-            "vmstat or a swap counter is absent; 0<=percent<=100 when free<=total. The model is tied to the code by running the real psutil (public API, fake "
-            "/proc, patched sysinfo/PAGESIZE, captured warnings) on printed records (exhaustive over 512 field subsets and 96 availability paths) and on a malformed stream.",
+            "0<=available<=total and 0<=percent<=100 whenever free<=total (and a witness that this hypothesis is needed). swap_memory(), for every page size: total/free "
+            "from meminfo or sysinfo(2), used, percent, sin/sout = pages x page size (bytes; the literal-4096 conversion used before commit fe3ce75 is refuted by a 64K-page "
+            "witness), zeros + warning when vmstat or a swap counter is absent; 0<=percent<=100 when free<=total. The model is tied to the code by running the real psutil "
+            "(public API, fake /proc, patched sysinfo/PAGESIZE, captured warnings) on printed records (exhaustive over 512 field subsets and 96 availability paths) and on a malformed stream.",
     "note": "Trusted: Coq kernel + vm_compute; hand-written model coq/C08/Model.v (tied by the correspondence run only); kernel formats and the fallback formula "
             "in coq/C08/Spec.v; harness; CPython builtins and IEEE doubles (percent compared in tenths with a tie tolerance). Not covered: float overflow for values "
             ">= 2^1024, float inexactness of the fallback above 2^53*1024 bytes, vmstat with only one of pswpin/pswpout (both reported 0: observation).",
